@@ -153,3 +153,328 @@ static void sched(Ctx* c, int i) {
   }
   t_callkind = saved;
 }
+
+// body of link i for the completion-path sites (then-chains, pipeline continuation, graph): the chain is pre-built, the library
+// dispatches link i+1 after the body of link i returned.  how = 3 when this body's frame lies deeper on the same thread than the
+// previous link's body frame (the previous link's dispatch frame is then still on the stack), else the call kind / 0.
+static __attribute__((noinline)) void cbody(Ctx* c, int i) {
+  int kind = t_callkind;
+  t_callkind = 0;
+  char* fa = static_cast<char*>(__builtin_frame_address(0));
+  if (!t_base) t_base = fa;
+  Rec& r = g_rec[i];
+  r.tid = myTid();
+  r.fa = reinterpret_cast<unsigned long>(fa);
+  r.g = dispenso::detail::PerPoolPerThreadInfo::inlineDepth();
+  r.bytes = static_cast<long>(t_base - fa);
+  if (i > 0 && g_rec[i - 1].done && g_rec[i - 1].tid == r.tid && r.fa < g_rec[i - 1].fa) {
+    r.how = 3;
+    r.nS = g_rec[i - 1].nS + 1;
+    r.nW = g_rec[i - 1].nW;
+  } else {
+    r.how = kind;
+    r.nS = (kind == 1);
+    r.nW = (kind == 2);
+  }
+  g_sh->ran.fetch_add(1);
+  if (r.bytes > c->limitBytes) g_sh->overflow.store(1);
+  if (i + 1 < c->len) sample(c, i + 1);
+  r.done = 1;
+  if (i + 1 >= c->len) g_sh->finished.store(1);
+  t_callkind = kind;
+}
+
+// ---------------------------------------------------------------------------------------------- load (blockers on a latch)
+struct Gate {
+  std::mutex m;
+  std::condition_variable cv;
+  bool open = false;
+  std::atomic<int> parked{0};
+  void wait() {
+    std::unique_lock<std::mutex> lk(m);
+    ++parked;
+    cv.wait(lk, [this]() { return open; });
+  }
+  void release() {
+    std::lock_guard<std::mutex> lk(m);
+    open = true;
+    cv.notify_all();
+  }
+};
+
+static bool isTaskSetSite(Site s) { return s == TSK || s == TSKBULK || s == CTS || s == CTSH || s == CTSBULK || s == CTSHBULK; }
+
+// ---------------------------------------------------------------------------------------------- one case, on the driver thread T
+struct Case {
+  Site site;
+  int len, N, load, stackKB;
+};
+
+static void waitFinished(int ms) {
+  for (int k = 0; k < ms * 10 && !g_sh->finished.load(); ++k) std::this_thread::sleep_for(std::chrono::microseconds(100));
+}
+
+static void runCase(const Case& cs) {
+  g_Tbase = static_cast<char*>(__builtin_frame_address(0));
+  t_base = g_Tbase;
+  t_tid = 0;
+  dispenso::ThreadPool pool(static_cast<size_t>(cs.N));
+  Ctx c;
+  c.site = cs.site;
+  c.len = cs.len;
+  c.limitBytes = static_cast<long>(cs.stackKB) * 1024 - 64 * 1024;
+  c.pool = &pool;
+  dispenso::TaskSet ts(pool);
+  dispenso::ConcurrentTaskSet ctsl(pool, dispenso::TaskCost::kLightweight);
+  dispenso::ConcurrentTaskSet ctsh(pool, dispenso::TaskCost::kHeavy);
+  bool heavy = cs.site == CTSH || cs.site == CTSHBULK || cs.site == GRAPH;
+  if (cs.site == TSK || cs.site == TSKBULK) c.ts = &ts;
+  if (cs.site == CTS || cs.site == CTSBULK) c.cts = &ctsl;
+  if (heavy) c.cts = &ctsh;
+  g_sh->nt = static_cast<int>(pool.numThreads());
+  g_sh->plf = static_cast<long>(pool.poolLoadFactor_.load());
+  g_sh->tlf = c.ts ? static_cast<long>(ts.taskSetLoadFactor_) : static_cast<long>(ctsh.taskSetLoadFactor_);
+  Gate gate;
+  long B = 0;
+  if (cs.load && cs.N > 0) {
+    B = g_sh->plf + 8;
+    auto blk = [&gate]() { gate.wait(); };
+    for (long b = 0; b < B; ++b) {
+      if (c.ts) ts.schedule(blk, dispenso::ForceQueuingTag());
+      else if (c.cts && cs.site != GRAPH) c.cts->schedule(blk, dispenso::ForceQueuingTag());
+      else pool.schedule(blk, dispenso::ForceQueuingTag());
+    }
+    for (int k = 0; k < 20000 && gate.parked.load() < cs.N; ++k) std::this_thread::sleep_for(std::chrono::microseconds(100));
+    std::this_thread::sleep_for(std::chrono::milliseconds(2));    // let the workers settle inside the blockers
+  }
+  g_sh->B = B;
+  auto openGate = [&]() {
+    g_sh->finished.load();
+    gate.release();
+  };
+  int detAt = -1;
+  if (cs.site <= CTSHBULK) {
+    sched(&c, 0);
+    detAt = g_sh->ran.load();
+    openGate();
+    if (isTaskSetSite(cs.site)) {
+      for (int k = 0; k < 200000 && !g_sh->finished.load(); ++k) {
+        t_callkind = 2;
+        if (c.ts) ts.wait(); else c.cts->wait();
+        t_callkind = 0;
+        if (!g_sh->finished.load()) std::this_thread::sleep_for(std::chrono::microseconds(50));
+      }
+    } else {
+      waitFinished(15000);
+    }
+  }
+  if (cs.site == THENIMM || cs.site == THENPOOL) {
+    // head is force-queued (behind the blockers when load = 1); T builds the chain, then waits on head: Future::wait runs the
+    // not-started functor inline on T (load = 1), or a worker has taken it (load = 0)
+    std::atomic<int> go{0};
+    dispenso::Future<void> head = dispenso::async(pool, std::launch::async | std::launch::deferred, [&c, &go]() {
+      while (!go.load()) std::this_thread::yield();
+      cbody(&c, 0);
+    });
+    std::vector<dispenso::Future<void>> keep;
+    keep.reserve(static_cast<size_t>(cs.len));
+    dispenso::Future<void> cur = head;
+    Ctx* cp = &c;
+    for (int i = 1; i < cs.len; ++i) {
+      if (cs.site == THENIMM) {
+        cur = cur.then([cp, i](dispenso::Future<void>&&) { cbody(cp, i); }, dispenso::kImmediateInvoker);
+      } else {
+        cur = cur.then([cp, i](dispenso::Future<void>&&) { cbody(cp, i); }, pool);
+      }
+      keep.push_back(cur);
+    }
+    sample(&c, 0);
+    go.store(1);
+    t_callkind = 2;
+    head.wait();
+    t_callkind = 0;
+    detAt = g_sh->ran.load();
+    openGate();
+    waitFinished(15000);
+    cur.wait();
+  }
+  if (cs.site == PIPE) {
+    // generator (on the caller) -> serial stage; item 0 holds the serial stage until every item is queued behind it
+    std::atomic<int> produced{0};
+    int len = cs.len;
+    Ctx* cp = &c;
+    dispenso::pipeline(
+        pool,
+        [&produced, len]() -> dispenso::OpResult<int> {
+          int k = produced.load();
+          if (k >= len) return {};
+          produced.store(k + 1);
+          return k;
+        },
+        [cp, &produced, len](int i) {
+          if (i == 0) {
+            for (int k = 0; k < 100000 && produced.load() < len; ++k) std::this_thread::sleep_for(std::chrono::microseconds(100));
+            std::this_thread::sleep_for(std::chrono::milliseconds(5));
+          }
+          cbody(cp, i);
+        });
+    detAt = 0;
+  }
+  dispenso::Graph graph;
+  if (cs.site == GRAPH) {
+    // comb: N_i -> [L_i (first ready dependent: continued in the loop), N_{i+1} (scheduled through the ConcurrentTaskSet)]
+    std::vector<dispenso::Node*> ns;
+    Ctx* cp = &c;
+    for (int i = 0; i < cs.len; ++i) ns.push_back(&graph.addNode([cp, i]() { cbody(cp, i); }));
+    for (int i = 0; i + 1 < cs.len; ++i) {
+      dispenso::Node& leaf = graph.addNode([]() {});
+      ns[static_cast<size_t>(i + 1)]->dependsOn(*ns[static_cast<size_t>(i)]);
+      leaf.dependsOn(*ns[static_cast<size_t>(i)]);
+    }
+    setAllNodesIncomplete(graph);  // declared only as a friend of Node: found by ADL
+    dispenso::ConcurrentTaskSetExecutor ex;
+    sample(&c, 0);
+    t_callkind = 1;
+    ex(ctsh, graph, false);
+    t_callkind = 0;
+    detAt = g_sh->ran.load();
+    openGate();
+    t_callkind = 2;
+    ctsh.wait();
+    t_callkind = 0;
+  }
+  if (cs.site == WAITNEST) {
+    // len independent tasks force-queued by T; each: own ConcurrentTaskSet, force-queue one leaf, wait().  Nesting through wait()
+    // (a waiter runs whatever the pool hands it) -- recorded as nW; not part of C46's wording.
+    Ctx* cp = &c;
+    std::atomic<int> leaves{0};
+    for (int i = 0; i < cs.len; ++i) {
+      ctsl.schedule(
+          [cp, i, &pool, &leaves]() {
+            int kind = t_callkind;
+            t_callkind = 0;
+            char* fa = static_cast<char*>(__builtin_frame_address(0));
+            if (!t_base) t_base = fa;
+            Rec& r = g_rec[i];
+            r.how = kind;
+            r.nS = t_nS;
+            r.nW = t_nW + (kind == 2);
+            r.g = dispenso::detail::PerPoolPerThreadInfo::inlineDepth();
+            r.tid = myTid();
+            r.bytes = static_cast<long>(t_base - fa);
+            r.fa = reinterpret_cast<unsigned long>(fa);
+            int sW = t_nW;
+            t_nW = r.nW;
+            g_sh->ran.fetch_add(1);
+            if (r.bytes > cp->limitBytes) {
+              g_sh->overflow.store(1);
+            } else {
+              dispenso::ConcurrentTaskSet inner(pool, dispenso::TaskCost::kLightweight);
+              inner.schedule([&leaves]() { leaves.fetch_add(1); }, dispenso::ForceQueuingTag());
+              t_callkind = 2;
+              inner.wait();
+              t_callkind = 0;
+            }
+            r.done = 1;
+            t_nW = sW;
+            t_callkind = kind;
+          },
+          dispenso::ForceQueuingTag());
+    }
+    detAt = 0;
+    openGate();
+    t_callkind = 2;
+    ctsl.wait();
+    t_callkind = 0;
+    g_sh->finished.store(1);
+  }
+  openGate();
+  g_rec[cs.len].how = detAt;     // slot len: bookkeeping
+  // the task sets' destructors wait for the blockers
+}
+
+// ---------------------------------------------------------------------------------------------- reporting (parent process)
+static void report(const Case& cs, const char* status) {
+  int ran = g_sh->ran.load();
+  long maxS = 0, maxW = 0, maxG = 0, maxB = 0;
+  std::ostringstream segs;
+  int i = 0, nseg = 0;
+  while (i < cs.len && g_rec[i].fa != 0) {
+    int j = i;
+    while (j + 1 < cs.len && g_rec[j + 1].fa != 0 && g_rec[j + 1].how == g_rec[i].how &&
+           ((g_rec[i].how == 1 || g_rec[i].how == 3)
+                ? (g_rec[j + 1].tid == g_rec[j].tid && g_rec[j + 1].nS == g_rec[j].nS + 1 && (g_rec[i].how == 3 || g_rec[j + 1].rec == g_rec[j].rec))
+                : (g_rec[j + 1].nS == g_rec[j].nS && g_rec[j + 1].nW == g_rec[j].nW && g_rec[j + 1].g == g_rec[j].g)))
+      ++j;
+    const Rec &a = g_rec[i], &b = g_rec[j];
+    long per = j > i ? (b.bytes - a.bytes) / (j - i) : 0;
+    if (nseg < 400)
+      segs << ' ' << a.how << ':' << (j - i + 1) << ':' << a.nS << ':' << a.g << ':' << a.out << ':' << a.wr << ':' << a.rec << ':' << b.nS << ':'
+           << b.g << ':' << b.out << ':' << b.wr << ':' << b.rec << ':' << per << ':' << a.nW << ':' << b.nW;
+    ++nseg;
+    i = j + 1;
+  }
+  for (int k = 0; k < cs.len; ++k) {
+    if (g_rec[k].fa == 0) continue;
+    maxS = std::max<long>(maxS, g_rec[k].nS);
+    maxW = std::max<long>(maxW, g_rec[k].nW);
+    maxG = std::max<long>(maxG, g_rec[k].g);
+    maxB = std::max<long>(maxB, g_rec[k].bytes);
+  }
+  bool heavy = cs.site == CTSH || cs.site == CTSHBULK || cs.site == GRAPH;
+  printf("chain %s %d %d %d | nt %d plf %ld tlf %ld B %ld heavy %d det %d | ran %d maxS %ld maxW %ld maxG %ld maxbytes %ld nseg %d | segs%s | status %s\n",
+         kSiteNames[cs.site], cs.len, cs.N, cs.load, g_sh->nt, g_sh->plf, g_sh->tlf, g_sh->B, heavy ? 1 : 0, g_rec[cs.len].how, ran, maxS, maxW,
+         maxG, maxB, nseg, segs.str().c_str(), status);
+  fflush(stdout);
+}
+
+static void* threadMain(void* p) {
+  runCase(*static_cast<Case*>(p));
+  return nullptr;
+}
+
+int main() {
+  std::string line;
+  while (std::getline(std::cin, line)) {
+    if (line.empty()) continue;
+    std::istringstream is(line);
+    std::string cmd, site;
+    Case cs{};
+    is >> cmd >> site >> cs.len >> cs.N >> cs.load >> cs.stackKB;
+    int s = -1;
+    for (int k = 0; k < NSITE; ++k)
+      if (site == kSiteNames[k]) s = k;
+    if (cmd != "chain" || s < 0 || cs.len < 1 || cs.len > 200000 || cs.stackKB < 128) {
+      printf("ERR bad case: %s\n", line.c_str());
+      fflush(stdout);
+      continue;
+    }
+    cs.site = static_cast<Site>(s);
+    size_t bytes = sizeof(Shared) + sizeof(Rec) * static_cast<size_t>(cs.len + 1);
+    void* mem = mmap(nullptr, bytes, PROT_READ | PROT_WRITE, MAP_SHARED | MAP_ANONYMOUS, -1, 0);
+    memset(mem, 0, bytes);
+    g_sh = new (mem) Shared();
+    g_rec = reinterpret_cast<Rec*>(static_cast<char*>(mem) + sizeof(Shared));
+    g_rec[cs.len].how = -1;
+    fflush(stdout);
+    pid_t pid = fork();
+    if (pid == 0) {
+      alarm(60);
+      pthread_attr_t at;
+      pthread_attr_init(&at);
+      pthread_attr_setstacksize(&at, static_cast<size_t>(cs.stackKB) * 1024);
+      pthread_t th;
+      pthread_create(&th, &at, threadMain, &cs);
+      pthread_join(th, nullptr);
+      _exit(0);
+    }
+    int st = 0;
+    waitpid(pid, &st, 0);
+    const char* status = "ok";
+    if (WIFSIGNALED(st)) status = WTERMSIG(st) == SIGALRM ? "timeout" : "crash";
+    else if (g_sh->overflow.load()) status = "overflow";
+    report(cs, status);
+    munmap(mem, bytes);
+  }
+  return 0;
+}
